@@ -575,3 +575,24 @@ mutant("M85e-region-offset-without-division", ["C05", "C11", "C01"], "UNITS-1", 
 mutant("M86-rechunk-storage-grid-not-split", ["C05"], "RECHUNK-GRID-1", (OPS, "        target_chunks = split_chunks(x.shape, copy_chunks, target_chunks)\n", "        target_chunks = normalize_chunks(target_chunks, x.shape, dtype=x.dtype)\n"))
 mutant("M86b-split-chunks-skips-first-axis", ["C05"], "RECHUNK-GRID-1", (OPS, "        for n, wc, tc in zip(shape, source_chunks, target_chunks)\n    )", "        for n, wc, tc in zip(shape, source_chunks, target_chunks)\n        if n > 1\n    )"))
 mutant("M87-threads-executor-drops-callbacks", ["C13"], "EVENTS-1", (LOCAL, "            await async_map_dag(\n                create_futures_func,\n                dag=dag,\n                callbacks=callbacks,\n                compute_arrays_in_parallel=compute_arrays_in_parallel,\n                **kwargs,\n            )\n        finally:\n            # don't wait for any cancelled tasks\n            concurrent_executor.shutdown(wait=False)\n\n\ndef processes_create_futures_func", "            await async_map_dag(\n                create_futures_func,\n                dag=dag,\n                callbacks=None,\n                compute_arrays_in_parallel=compute_arrays_in_parallel,\n                **kwargs,\n            )\n        finally:\n            # don't wait for any cancelled tasks\n            concurrent_executor.shutdown(wait=False)\n\n\ndef processes_create_futures_func"))
+
+benign(
+    "B-key-dispatch-generator-helper",
+    ["C15", "C02", "C03"],
+    (
+        PBW,
+        "    if isinstance(arg, list):\n        return [\n            FunctionArgs(\n                *_apply_blockwise_key_func_to_chunk_key(\n                    a, back_key_functions_dict\n                ).args,\n                output_name=a.name,\n            )\n            for a in arg\n        ]\n    else:\n        return (\n            FunctionArgs(\n                *_apply_blockwise_key_func_to_chunk_key(\n                    a, back_key_functions_dict\n                ).args,\n                output_name=a.name,\n            )\n            for a in arg\n        )\n",
+        "    if isinstance(arg, list):\n        return list(_apply_keys(arg, back_key_functions_dict))\n    else:\n        return _apply_keys(arg, back_key_functions_dict)\n\n\ndef _apply_keys(args, back_key_functions_dict):\n    for a in args:\n        yield FunctionArgs(\n            *_apply_blockwise_key_func_to_chunk_key(a, back_key_functions_dict).args,\n            output_name=a.name,\n        )\n",
+    ),
+)
+mutant(
+    "M88-key-function-cached-per-collection",
+    ["C15", "C02"],
+    "NEST-DISPATCH-1",
+    (
+        PBW,
+        "    if isinstance(arg, list):\n        return [\n            FunctionArgs(\n                *_apply_blockwise_key_func_to_chunk_key(\n                    a, back_key_functions_dict\n                ).args,\n                output_name=a.name,\n            )\n            for a in arg\n        ]\n    else:\n        return (\n            FunctionArgs(\n                *_apply_blockwise_key_func_to_chunk_key(\n                    a, back_key_functions_dict\n                ).args,\n                output_name=a.name,\n            )\n            for a in arg\n        )\n",
+        "    if isinstance(arg, list):\n        return list(_apply_keys(arg, back_key_functions_dict))\n    else:\n        return _apply_keys(arg, back_key_functions_dict)\n\n\ndef _apply_keys(args, back_key_functions_dict):\n    kf = None\n    for a in args:\n        if kf is None:\n            kf = back_key_functions_dict.get(a.name, lambda k: FunctionArgs(k, output_name=k.name))\n        yield FunctionArgs(*kf(a).args, output_name=a.name)\n",
+    ),
+)
+mutant("M89-regular-planner-align-hoisted", ["C05"], "RECHUNK-GRID-1", ("cubed/core/rechunk.py", "        read_chunks = _fix_copy_chunks(\n            shape, read_chunks, (stage_chunks + [write_chunks])[0]\n        )\n", "        read_chunks = _fix_copy_chunks(shape, read_chunks, write_chunks)\n"))
